@@ -603,6 +603,21 @@ def _quote_rule_in(chk, P, n0):
         if base is None or not is_last_index(P, idx, base['id']):
             continue
         n += 1
+        # one pair at most: behind this cut no cut of the same value is reachable before the variable is given its
+        # next value (the next line's).  Two consecutive strips turn "'x'" (inside double quotes) into x.
+        others = [o2 for o2 in P.body.walk() if o2.k == 'BinaryOperator' and o2['op'] == '=' and strip(o2.ch[1]).get('v') == 0 and
+                  strip(o2.ch[0]).k == 'ArraySubscriptExpr' and (decl_of(strip(o2.ch[0]).ch[0]) or {}).get('id') == base['id'] and
+                  is_last_index(P, strip(strip(o2.ch[0]).ch[1]), base['id'])]
+        pos_ = C.elem_positions(P)
+        b_, i_ = pos_[C.cfg_elem_of(P, st).id]
+        vis, _ = C.reach(P, (b_, i_ + 1), lambda e: e.k == 'BinaryOperator' and e.get('op') == '=' and
+                         strip(e.ch[0]).k == 'DeclRefExpr' and (decl_of(e.ch[0]) or {}).get('id') == base['id'])
+        again = [o2 for o2 in others if C.cfg_elem_of(P, o2).id in vis]
+        chk.ob('T7', 'one-quote-pair-at-most[%d]' % (n0 + n), not again, (again[0] if again else st).where(), P.name,
+               'after one pair of quotes has been cut off the same value can be cut again (%s): a value that is quoted twice, '
+               'like "\'%%{cmdline}\'" , loses both pairs although only the outer one is the INI syntax' % (
+                   render(again[0])[:50] if again else ''),
+               how='no second cut of the value is reachable before it is assigned anew')
 
         def end_of(t):
             if t.k == 'UnaryOperator' and t['op'] == '*' and (decl_of(t.ch[0]) or {}).get('id') == base['id']:
